@@ -654,7 +654,7 @@ def run(ctx):
         'every chain of length 0..4 over the six built-in policies (1555 chains; Forward with a rule set drawn from 20 sets: first-match, '
         'count-limited, empty-result, case rules, back-references, and 9 sets with a rule that MATCHES but reproduces the same text - whole '
         'address / domain only / with count / repl function, before and after other matching rules, as the only and as the last rule) x '
-        'recipient lists (duplicates, mixed-case / missing / empty domains, many domains, empty list) x 16 original header blocks (none, '
+        'recipient lists (duplicates, mixed-case / missing / empty domains, many domains, empty list) x 24 original header blocks (none, '
         'Date / date / MESSAGE-ID / Received present, and 9 with a present-but-EMPTY / whitespace-only / oddly capitalised Date or Message-Id, '
         'also below other fields) through the real '
         'Queue.enqueue with a recording store (a sample through Queue._run_policies directly and through enqueue with a no-op relay); '
@@ -666,7 +666,13 @@ def run(ctx):
         '(c16:policy-raises), the run goes on.  Systematic streams: Forward.apply alone on every rule set x every pool address (judged per '
         'rule with re.subn counts: first rule with changes > 0 and non-empty result wins even when the text is unchanged); every chain of '
         'length <= 3 over split/domain/Forward/received containing Forward x the 9 identity rule sets; every chain of length <= 3 over '
-        'split/domain/date/mid/received containing date or mid (+ 4 long chains with repetitions) x the 9 empty-header blocks.  '
+        'split/domain/date/mid/received containing date or mid (+ 4 long chains with repetitions) x the 9 empty-header blocks; every chain '
+        'of length <= 3 over split/domain/received/date/mid containing received x 9 header blocks with an existing Received field (on top, '
+        'below Return-Path / DKIM-Signature / X- fields, lower / upper / mixed case, several interleaved with other fields, last); '
+        'implementation only: chains with a test-only header-prepending policy before / after / between AddReceivedHeader applications and '
+        'the split policies.  Oracle c16:received-not-first: when the last prepending policy of the chain is AddReceivedHeader the first '
+        'field of every written envelope, in envelope.headers and in the flatten()ed bytes, is this hop\'s Received field and the original '
+        'fields follow in their order.  '
         'non-trivial = more than one recipient and a non-empty chain (Forward.apply stream: some rule matches)')
     _reported.clear()
     run_domains(ctx)
